@@ -185,6 +185,19 @@ def check_who_may_call(model, rep):
     blk = [c for c in calls_in(b.node) if method_name(c) == 'get_block_for_evaluable']
     ok = len(blk) == 1 and any(k.arg == 'block_id' and src(k.value).replace(' ', '') == 'builtins.max(evaluable_block_id,out_block_id)' for k in blk[0].keywords)
     rep.ob('R02.3', b.key, b.where(), ok, 'the fallback statement is placed after both the value and the destination exist' if ok else 'the fallback is not placed in max(evaluable_block_id, out_block_id)', statement='fallback-block')
+    # loops: the in-place protocol must decline when the destination is defined after the loop index (sibling agreement of the Loop classes)
+    L = model.cls('evaluable:Loop')
+    for c in model.subclasses(L, strict=True):
+        mem = c.members.get('_compile_with_out')
+        if mem is None or mem.func is None:
+            continue
+        f = mem.func
+        esc = [s for s in f.body if isinstance(s, ast.If) and src(s.test).replace(' ', '') == 'out_block_id>builder.get_block_id(self.index)' and any(isinstance(b, ast.Return) and src(b.value) == 'NotImplemented' for b in s.body)]
+        first_emit = min([x.lineno for x in calls_in(f.node) if method_name(x) in ('array_fill_zeros', 'compile_with_out', 'compile')] or [10 ** 9])
+        ok = len(esc) == 1 and esc[0].lineno < first_emit
+        rep.ob('R02.3', f.key, f.where(esc[0]) if esc else f.where(), ok, f'{c.name} declines in-place compilation when the loop body would precede the definition of out' if ok else
+               f'{c.name}._compile_with_out lost the escape `if out_block_id > builder.get_block_id(self.index): return NotImplemented` in front of its first emission: the loop body would write into an array that is allocated later',
+               statement='loop-escape')
     a = model.func('evaluable:Add._compile')
     ifs = [s for s in a.body if isinstance(s, ast.If)]
     ok = len(ifs) == 1 and 'builder.ndependents[func] == 1' in src(ifs[0].test) and '_compile_with_out != Array._compile_with_out' in src(ifs[0].test)
